@@ -325,6 +325,17 @@ theorem splitAnd_total (e : Expr) (hw : WT e) (hrb : Rebuildable e) : (∃ l, sp
 theorem splitAnd_total_parsed (r : Raw) (e : Expr) (h : build r = .ok e) : (∃ l, splitAnd e = .ok l) ∨ splitAnd e = .error .value :=
   splitAnd_total e (build_WT r e h) (build_rebuildable r e h)
 
+/-- **`split_and` on predicates**: for the predicate made of any tree the parser builds -/
+theorem splitAndPred_total_parsed (r : Raw) (e : Expr) (p : Pred) (h : build r = .ok e) (hp : mkPred e = .ok p) :
+    (∃ l, splitAndPred p = .ok l) ∨ splitAndPred p = .error .value := by
+  unfold mkPred at hp
+  obtain ⟨e', he', hp⟩ := bind_ok hp
+  split at hp
+  · cases hp
+    have hw := build_WT r e h
+    exact splitAnd_total e' (castE_WT he' hw) (castE_rebuildable he' hw (build_rebuildable r e h))
+  · cases hp
+
 /-- the hypotheses are met and the transform does work: `not (exists i in xs: (@i > 0 or b))` becomes two conjuncts -/
 example : ∃ e l, build (.un "not" (.quant .some "i" (.field .this "xs") (.bin "or" (.bin ">" (.var "i") (.lit "0" (.int 0))) (.field .this "b")))) = .ok e ∧
     splitAnd e = .ok l ∧ l.length = 2 := by
